@@ -20,6 +20,10 @@ CHECKS = {
             'Inductive step decided by z3: from a clean builder the real Builder.fly/_iterate_mass/__getattr__/__setattr__ run symbolically with a stub context whose constructor, starting-mass calculation and each mass iteration may raise any documented rejection (symbolic failure point) or succeed with symbolic residuals; obligations per path: builder instance state is exactly the pre-state (so every flight of any history starts from the same state), the exception leaving fly is the injected one, a returned trajectory is the last flown with |residual| < tolerance and carries that iteration\'s masses, otherwise non-convergence is reported. Concrete flight sequences on the real LegacyBuilder are compared bitwise with fresh builders as validation.',
             'context class and phase loop are stubs (their documented rejections are the failure alphabet); state outside the builder instance is not modelled; bit-identity is validated concretely, not decided by the solver',
             'proxy symbolic execution (inductive step with symbolic fault points) + z3', 'DESIGN.md#c17'),
+    'C18': ('model_checking',
+            'Three-state machine, inductive step decided by z3: from each singleton state every operation (load with symbolic failure at field validation / path normalisation / each file lookup, reset, get, proxy read, proxy write) runs the real bodies of the after-validators, Config.get/reset and ConfigProxy inside a model of the pydantic pipeline; per path the outcome and post-state must be those of the reference machine (in particular: any failing load ends unconfigured). Overlay precedence: the real Config.load body merges symbolic-leaf trees of every 2-level shape and must equal an independent highest-priority-layer-wins formulation. Concrete sequences on the real pydantic class validate the pipeline model and exercise immutability at every nesting level.',
+            'pydantic-core is modelled (field validation, then after-validators in definition order); immutability is enforced inside pydantic-core and only exercised concretely; trees of depth 2 with 2 keys per level',
+            'proxy symbolic execution with symbolic fault points + z3; shape enumeration with symbolic leaves', 'DESIGN.md#c18'),
     'C20': ('model_checking',
             'Bounded model checking: per-thread instruction lists are generated on every run from the AST of TrajectoryStore.__init__/close (statements touching the owner record are encoded exactly; everything else is an abstract step that may raise), two threads are interleaved at source-line granularity in a z3 transition system unrolled to the total instruction count, and "both threads admitted" must be unsat for the race and for call sequences (construct/close/construct, failed constructor calls). Satisfying schedules are enforced on the real class with real threads by a sys.settrace line scheduler; reachability twins are replayed the same way on every run to validate the encoding.',
             '2 threads; A up to 2 (thorough 3) constructor calls, B 1 (thorough 2); line-level atomicity as the property states (bytecode-level pre-emption inside a line is outside); AST shapes outside the supported set give exit 2',
